@@ -4,6 +4,11 @@ import json, subprocess
 
 # id: (level, engine, technique, level text, level note, design ref)
 CHECKS = {
+ "C05": ("exploration", "space",
+         "complete enumeration of projection aspect x ellipsoid x fixed lattice; scale factors from 4th-order central differences of the real forward operator vs. the harness's own M, N and meridian-arc quadrature",
+         "For all 48 projection aspects x ellipsoids (quick: GRS80, intl, sphere, f=1/150; thorough: every instantiable built-in plus f=1/150, 1/200, 1/1000) x the lattice (|lat| <= 89.9, tmerc within 60 deg, btmerc 3 deg; quick 7.5x15 deg, thorough 1x3 deg plus all special points): conformal projections must have equal scale along meridian and parallel, orthogonal graticule images and positive orientation; laea area scale 1; webmerc equals a*lambda, a*asinh(tan phi); k_0 along the central meridian of tmerc/utm/btmerc with northing = k_0*(arc(phi)-arc(lat_0))+y_0 against Gauss-Legendre quadrature; k_0 on the equator or unity at +-lat_ts for merc; k_0 on each standard parallel of lcc; k_0 at the centre of somerc/omerc; projection centre mapped to (x_0, y_0).",
+         "Numerical differentiation error < 1e-9 relative (step reduced near the poles). Conformality tolerance 1e-7 (1e-5 for the millimetre-class btmerc/omerc). Lattice coverage only.",
+         "DESIGN.md §3 C05"),
  "C13": ("exploration", "space",
          "complete enumeration of projection aspect x ellipsoid x shared-parameter alphabet x fixed lattice; each relation is a differential check between two parameterisations of the real code",
          "For every projection aspect of the table (merc, tmerc, btmerc, lcc, laea, omerc, somerc; 38 aspects) x ellipsoids (quick 2, thorough all instantiable built-ins): false origin (3 values), lon_0/lonc (3 values, lattice re-centred), k_0 (2 values, with offsets), doubling the semi-major axis; utm == tmerc and butm == btmerc for all 60 zones x both hemispheres (forward and inverse); merc == webmerc on two spheres; lat_ts == the corresponding k_0 (4 latitudes); lcc 1SP == 2SP with equal parallels (3 cones); the five noop aliases on all 169 value pairs of the special-value alphabet in four wrappings.",
@@ -97,7 +102,7 @@ def main():
             "add_only": True,
         },
         "engines": [
-            {"name": "space", "path": "/verif/mc/src/engine.rs", "kind_free_text": "exhaustive mixed-radix product enumeration on 16 threads (par_range/decode)", "serves_properties": ["C01", "C11", "C13", "C16", "C19"]},
+            {"name": "space", "path": "/verif/mc/src/engine.rs", "kind_free_text": "exhaustive mixed-radix product enumeration on 16 threads (par_range/decode)", "serves_properties": ["C01", "C05", "C11", "C13", "C16", "C19"]},
             {"name": "explore", "path": "/verif/mc/src/props", "kind_free_text": "explicit-state / program-tree exploration of the real API against reference models written in Rust", "serves_properties": ["C02", "C03", "C04", "C12", "C17", "C18"]},
             {"name": "sched", "path": "/verif/mc/src/props/c18.rs", "kind_free_text": "shuttle DfsScheduler over real threads sharing Plain contexts and the process-wide grid cache; yield points from hook H4", "serves_properties": ["C18"]},
             {"name": "workers", "path": "/verif/mc/src/engine.rs", "kind_free_text": "worker subprocesses (2 MiB stack, 4 GiB address space, watchdog) for hang / overflow / abort detection", "serves_properties": ["C04"]},
